@@ -20,12 +20,13 @@ from .sym import g_and, g_or, g_not
 class Cfg:
     """How the real souffle is invoked for one side of a comparison."""
 
-    def __init__(self, name, flags=(), env=None, ram="transformed-ram", text_fn=None):
+    def __init__(self, name, flags=(), env=None, ram="transformed-ram", text_fn=None, prep=None):
         self.name = name
         self.flags = list(flags)
         self.env = dict(env or {})
         self.ram = ram
         self.text_fn = text_fn      # optional rewrite of the program text given to souffle (qualifiers, plans...)
+        self.prep = prep            # optional callable(work_dir, text) -> extra flags (e.g. produce a profile first)
 
     def key(self):
         return self.name
@@ -65,7 +66,8 @@ def souffle_show(text, cfg, work, what=None, extra_flags=()):
 
 def get_ram(text, cfg, work):
     t = cfg.text_fn(text) if cfg.text_fn else text
-    rc, out, err = souffle_show(t, cfg, work)
+    extra = cfg.prep(work, t) if cfg.prep else ()
+    rc, out, err = souffle_show(t, cfg, work, extra_flags=extra)
     if rc != 0 or not out.startswith("PROGRAM"):
         raise SouffleRejected("souffle rc=%d: %s" % (rc, (err or out)[-400:]))
     return ramparse.parse_program(out)
@@ -187,6 +189,8 @@ def run_real(text, cfg, facts_dir, out_dir, extra=()):
     with open(src, "w") as f:
         f.write(t)
     flags = [x for x in cfg.flags]
+    if cfg.prep:
+        flags += list(cfg.prep(out_dir, t))
     rc, out, err = sh([common.SOUFFLE, "-w", "-F", facts_dir, "-D", out_dir] + flags + list(extra) + [src], timeout=300,
                       env=cfg.env, cwd=out_dir)
     res = {}
